@@ -530,11 +530,12 @@ META = {
     "level_text": (
         "Coq theorems over the token-level model of GraphParser's pair processing (Model/GraphBase.v) instantiated with the "
         "family tables generated from the source (Gen/FamTables.v): for every family qualifier q-all/q-any whose table entry "
-        "agrees with ALT_QUALIFIERS[q] (all 14 today except submit-fail-any), a left-hand FAM[offset]:q-all/any expands, for "
+        "agrees with ALT_QUALIFIERS[q] (all 14 today), a left-hand FAM[offset]:q-all/any expands, for "
         "every family size (induction on the member list) and inside any &,|,() expression mixed with plain task triggers, to "
         "an expression whose value is the AND/OR over the members of the documented member output (finish = succeeded|failed); "
         "a right-hand family node gives every member the trigger and the declared optionality as its default. "
-        "The submit-fail-any entry is proved wrong (c15_submit_fail_any_refuted) and listed as an open finding. "
+        "(The submit-fail-any entry used to map to member:submitted: finding fixed in /repo 399a6c1; the witnesses stay in the "
+        "corpus as regression cases and the theorem now covers all 14 entries.) "
         "The model is tied to graph_parser.py by differential runs through the real parse_graph (all qualifiers x sizes 1-4 x "
         "offsets, random nested/overlapping families, mixtures, malformed qualifier combinations), compared inside Coq on "
         "truth tables of the stored expressions and on the optionality map."),
